@@ -250,8 +250,8 @@ def jobs(tier):
             add(op, 2, 2, 'O', miss='tag')
             add(op, 2, 1, 'M')
             add(op, 1, 2, 'M')
-            add(op, 2, 1, 'X')
-            add(op, 1, 2, 'X')
+            add(op, 2, 1, 'X', budget=300)
+            add(op, 1, 2, 'X', budget=300)
             add(op, 2, 1, 'Od2', compound=True)
             add(op, 1, 2, 'Od2', compound=True)
             add(op, 2, 1, 'O', ragged=True, miss='tag')
